@@ -27,6 +27,7 @@ SIMPLE = {
     'things:annotated_fn': ('x', ['y', 'child']),
     'things:mutdef': ('c', ['a', 'b']),
     'things:mutdef1': ('c', ['a', 'other']),
+    'things:mutnest': ('c', ['a', 'other']),
     'things:kwdef': ('a', ['scale', 'child']),
     'things:DataLoader': ('x', ['child']),
     'things:data_loader': ('x', ['child']),
@@ -233,11 +234,24 @@ def dag(draw, *, max_nodes=12, leaf_profile='plain', kinds=None, p_alias=0.55,
         nodes.append({'k': 'list', 'items': [{'leaf': 'single-default'}], '_eqdef': True})
         lref = len(nodes) - 1
       kw = {'a': lref}
+      if draw(st.sampled_from(range(4))) == 0:
+        kw = {}      # the mutable default is left unset (several such nodes share the default object)
       if draw(st.booleans()):
         kw['other'] = lref if draw(st.booleans()) else ref()
       elif draw(st.booleans()):
         kw['a_done'] = lref
       node = {'k': 'B', 'bt': draw(st.sampled_from(list(bts))), 'fn': {'kind': 'sym', 'name': 'things:mutdef1'},
+              'pos': [], 'kw': kw, 'edits': []}
+    elif kind == 'Bmutnest':
+      # explicit value equal to a nested mutable default; the inner list is also referenced elsewhere
+      nodes.append({'k': 'list', 'items': [{'leaf': 'nested-default'}], '_eqdef': True})
+      inner = len(nodes) - 1
+      nodes.append({'k': 'dict', 'keys': ['k'], 'items': [inner]})
+      outer = len(nodes) - 1
+      kw = {'a': outer}
+      if draw(st.booleans()):
+        kw['other'] = inner
+      node = {'k': 'B', 'bt': draw(st.sampled_from(list(bts))), 'fn': {'kind': 'sym', 'name': 'things:mutnest'},
               'pos': [], 'kw': kw, 'edits': []}
     elif kind == 'Bmut':
       kw = {'a': {'leaf': {'$sym': 'things:_MUTABLE_DEFAULT'}}}
